@@ -22,7 +22,12 @@ anyfinite = st.one_of(st.floats(allow_nan=False, allow_infinity=False, width=64)
 
 @st.composite
 def grids(draw):
-    kind = draw(st.sampled_from(["uniform", "random", "repeats", "single", "wide", "tiny"]))
+    kind = draw(st.sampled_from(["uniform", "random", "repeats", "single", "wide", "tiny", "integers"]))
+    if kind == "integers":
+        # whole numbers (counts, indices): representable in every integer / float dtype the grid may be given in
+        lo = draw(st.integers(-50, 50))
+        step = draw(st.sampled_from([1, 1, 2, 5]))
+        return kind, [float(lo + k * step) for k in range(draw(st.integers(1, 40)))]
     if kind == "wide":
         return kind, sorted(draw(st.lists(anyfinite, min_size=1, max_size=12, unique=True)))
     if kind == "tiny":
@@ -51,7 +56,7 @@ def case_get_closest(draw):
     nvals = draw(st.integers(0, 20))
     vals = []
     for _ in range(nvals):
-        how = draw(st.sampled_from(["free", "elem", "mid", "far", "near"]))
+        how = draw(st.sampled_from(["free", "elem", "mid", "far", "near", "quarter"]))
         if how == "free":
             vals.append(draw(finite))
         elif how == "elem":
@@ -61,7 +66,7 @@ def case_get_closest(draw):
             vals.append((g[i] + g[i + 1]) / 2)
         elif how == "far":
             vals.append(draw(st.sampled_from([-1e300, 1e300, -1e15, 1e15])))
-        elif how == "mid" or kind in ("wide", "tiny"):
+        elif how in ("mid", "quarter") or kind in ("wide", "tiny"):
             # a point strictly inside a cell, nearer to one end (quarter points): magnitude follows the grid's
             i = draw(st.integers(0, max(0, len(g) - 2)))
             j = min(i + 1, len(g) - 1)
